@@ -52,7 +52,7 @@ def parse_report(out, names, var="R"):
 
 
 # ------------------------------------------------------------------------------------------ labels
-L_LISTS = ["M_san", "M_fp", "M_doc", "V_perm", "V_doc", "K_doc", "W_class"]
+L_LISTS = ["M_san", "M_fp", "M_doc", "V_perm", "V_doc", "V_utf8", "V_compat"]
 
 
 def lcase_to_coq(c):
@@ -130,16 +130,17 @@ def run_labels(ck):
 
     # --- correspondence
     for key, what in (("M_san", "sanitize = sanitizeLabels"), ("M_fp", "fingerprint (CityHash transcription over the CH64 table) = fingerprintLabels"),
-                      ("M_doc", "encode_labels (strconv.Quote model) = encodeLabels")):
+                      ("M_doc", "encode_labels (jsonQuote model) = encodeLabels")):
         ck.obligation("correspondence: model %s on %d label sets" % (what, len(ok)), not res[key] and not panics,
                       "mismatching case ids: %s" % res[key][:10])
     # --- spec oracles on the observations
     ck.obligation("spec: every permutation and every ingest protocol yields the same fingerprint", not res["V_perm"],
                   "case ids: %s" % res["V_perm"][:10])
-    ck.obligation("spec: the stored label document reads back as the label set whenever every byte is in the JSON-compatible class",
+    ck.obligation("spec: the stored label document is JSON (strict RFC 8259 reader in Coq) and decodes to exactly the sanitized label set, for every generated set",
                   not res["V_doc"], "case ids: %s" % res["V_doc"][:10])
-    ck.obligation("model: the JSON-compatible class is exact (inside: reads back; outside: does not)", not res["W_class"],
-                  "case ids: %s" % res["W_class"][:10])
+    ck.obligation("spec: sanitizeLabels leaves valid UTF-8 in every name and value", not res["V_utf8"], "case ids: %s" % res["V_utf8"][:10])
+    ck.obligation("spec: the document is byte for byte what strconv.Quote wrote wherever that was JSON for the set (stored text of readable series unchanged)",
+                  not res["V_compat"], "case ids: %s" % res["V_compat"][:10])
     pdoc = [c for c in ok if not c["parser_doc_ok"]]
     ck.obligation("parsers store encodeLabels(sanitizeLabels(labels as sent)) as the series document", not pdoc,
                   json.dumps(pdoc[0]["skipped"])[:600] if pdoc else "")
@@ -158,7 +159,7 @@ def run_labels(ck):
     ck.obligation("test: distinct generated label multisets have distinct fingerprints (%d multisets, incl. deliberately confusable groups)" % len(byfp),
                   not coll, "colliding ids: %s" % [(a["id"], b["id"]) for a, b in coll[:5]])
     # Go's own JSON reader vs the Coq reader on the observed documents
-    bad_ids = set(res["V_doc"]) | set(res["K_doc"])
+    bad_ids = set(res["V_doc"])
     disagree = [c for c in ok if (c["id"] in bad_ids) == bool(c["go_valid"] and c["go_equal"])]
     ck.obligation("cross-check: encoding/json (strict use) and LabelJson.json_decode agree on every observed document", not disagree,
                   "case ids: %s" % [c["id"] for c in disagree[:10]])
@@ -184,9 +185,17 @@ def run_labels(ck):
                       "replay": "seriesid --mode labels --cases <file with both cases>"})
     if res["V_doc"]:
         c = worst(res["V_doc"])
-        ck.violation({"property": "C04", "part": "labels", "kind": "stored label document is not JSON for the label set although all bytes are JSON-compatible",
-                      "case": c, "readable": show_labels(c), "explanation": "sv_doc (model/Labels.v)",
+        ck.violation({"property": "C04", "part": "labels", "kind": "stored label document is not JSON that decodes to the sanitized label set",
+                      "case": c, "readable": show_labels(c), "explanation": "sv_doc (model/Labels.v): LabelJson.json_decode of the observed document differs from the observed sanitized labels",
                       "replay": "seriesid --mode labels --cases <file with this case>"})
+    if res["V_utf8"] and not ck.violations:
+        c = worst(res["V_utf8"])
+        ck.violation({"property": "C04", "part": "labels", "kind": "sanitizeLabels left ill-formed UTF-8 in a label (the document cannot denote it)",
+                      "case": c, "readable": show_labels(c), "replay": "seriesid --mode labels --cases <file with this case>"})
+    if res["V_compat"] and not ck.violations:
+        c = worst(res["V_compat"])
+        ck.violation({"property": "C04", "part": "labels", "kind": "label document differs from the text strconv.Quote wrote although that text was JSON for the set (series stored before would get a second text)",
+                      "case": c, "readable": show_labels(c), "replay": "seriesid --mode labels --cases <file with this case>"})
     if pdoc and not ck.violations:
         c = min(pdoc, key=size)
         ck.violation({"property": "C04", "part": "labels", "kind": "a parser stores a different label document than encodeLabels(sanitizeLabels(sent))",
@@ -201,17 +210,6 @@ def run_labels(ck):
         ck.violation({"property": "C04", "part": "labels", "kind": "model/implementation disagree; spec oracles still accept",
                       "case": c, "readable": show_labels(c),
                       "broken": [k for k in ("M_san", "M_fp", "M_doc") if c["id"] in res[k]]}, no_input=True)
-    # --- recorded finding #12
-    if res["K_doc"]:
-        kf = ck.known_findings()
-        c = worst(res["K_doc"])
-        if "label-doc-not-json" in kf:
-            ck.report_known("label-doc-not-json", "%d of %d generated label sets (those with a byte/rune strconv.Quote escapes in a non-JSON way) "
-                            "are stored as a document that is not JSON, e.g. labels %s -> %s" % (
-                                len(res["K_doc"]), len(ok), show_labels(c)["sanitized"], show_labels(c)["document"]))
-        else:
-            ck.violation({"property": "C04", "part": "labels", "kind": "stored label document is not JSON (strconv.Quote escape that JSON lacks)",
-                          "case": c, "readable": show_labels(c), "replay": "seriesid --mode labels --cases <file with this case>"})
     # --- coverage
     distinct = set()
     hist = {}
@@ -230,7 +228,11 @@ def run_labels(ck):
                             "non-trivial = at least 2 labels, distinct by content. ")
     ck.extra["labels_input_classes"] = hist
     ck.extra["labels_fingerprint_sources"] = protos
-    ck.extra["labels_documents_not_json"] = len(res["K_doc"])
+    nfix = sum(1 for c in ok if c["raw"] != c["san"])
+    ck.extra["labels_sets_changed_by_sanitize"] = nfix
+    nq = sum(1 for c in ok if c.get("quote_json") is False)
+    ck.extra["labels_documents_strconv_quote_would_not_be_json"] = nq
+    ck.obligation("generated label sets reach the bytes the old quoter got wrong (control bytes, 0x7f, ill-formed UTF-8, cut inside a rune, astral non-printables)", nq >= 50, "%d sets" % nq)
     ck.add_samples([show_labels(c) for c in cases if len(c["raw"]) >= 2][:2])
 
 
@@ -520,7 +522,7 @@ def run_dates(ck):
 def run(ck):
     ck.trusted += [
         "C04: city.CH64 on label strings is an oracle (per-case table from the exported function); Hash128to64 and CH64 over the 24 accumulator bytes are transcribed and checked by the correspondence; FingerPrintType = CityHash (default) only",
-        "C04: strconv.IsPrint on runes > 0xFF is an oracle table; ClickHouse's JSON functions are assumed to accept exactly RFC 8259 (LabelJson.v) on these documents",
+        "C04: strconv.IsPrint on runes > 0xFF is an oracle table (the round-trip theorems hold for every IsPrint); ClickHouse's JSON functions are assumed to accept RFC 8259 (LabelJson.v) documents; strings.ToValidUTF8 and the rune walk of `for range` are transcribed (to_valid, utf8_fix) and checked by the correspondence",
         "C04: fingerprint injectivity is conditional on collision-freeness hypotheses that are tested, not proved",
         "C04 histories: the (day, fingerprint, type) cache key CH64(day || fp || type) is modelled as the triple itself (no collisions); fastcache has no false positives; the cache is the production GoCache; a cache reset runs the ticker's body through hook VerifC04Reset; CH64 collision-freeness of the 64-bit key is a hypothesis of announcement_cache_refines; requests stay below the 1 MiB mid-request flush; single node (the cache is disabled in cluster mode); the two inserts of a request and the cache update after them are one atomic step of the model (End); overlapping requests are driven through bodies that stay open (io.Pipe), one completion at a time",
         "C04 dates: ch-go's ToDate and Go's time.Truncate are transcribed (checked by the correspondence over 32 zones); the reader's own zone (upper date bound) belongs to C13",
